@@ -95,9 +95,11 @@ pub fn run(ctx: &Ctx, out: &mut CaseOut) {
                     db.count_interner = count_interner;
                     db.budget.set(3_000_000);
                     db.panic_at.set(Some(n));
+                    // SLG through the concrete type so that hooks H4/H5 can be read from the crashed solver afterwards
+                    let mut slg_s = chalk_engine::solve::SLGSolver::<I>::new(10, None);
                     let mut s = choice.into_solver();
                     let _ = chalk_engine::verif::take_unwind_log();
-                    let o = solve(&mut *s, &db, &p.goal);
+                    let o = if is_slg { solve(&mut slg_s, &db, &p.goal) } else { solve(&mut *s, &db, &p.goal) };
                     let log = chalk_engine::verif::take_unwind_log();
                     out.evals += 1;
                     match &o {
@@ -122,7 +124,7 @@ pub fn run(ctx: &Ctx, out: &mut CaseOut) {
                     if second {
                         db.calls.set(0);
                         db.panic_at.set(Some(n / 2));
-                        let _ = solve(&mut *s, &db, &p.goal);
+                        let _ = if is_slg { solve(&mut slg_s, &db, &p.goal) } else { solve(&mut *s, &db, &p.goal) };
                         let _ = chalk_engine::verif::take_unwind_log();
                         out.count("second-fault-injected-during-retry");
                     }
@@ -144,7 +146,7 @@ pub fn run(ctx: &Ctx, out: &mut CaseOut) {
                         };
                         db.calls.set(0);
                         db.panic_at.set(None);
-                        let o2 = solve(&mut *s, &db, &pj.goal);
+                        let o2 = if is_slg { solve(&mut slg_s, &db, &pj.goal) } else { solve(&mut *s, &db, &pj.goal) };
                         let d = |obs: &str| {
                             detail(&w.text, &w.goals[gi].0, &choice)
                                 .set("crash_point", n)
@@ -168,7 +170,17 @@ pub fn run(ctx: &Ctx, out: &mut CaseOut) {
                                     // on strand order even without any crash
                                     let trivial = |s: &Option<Solution<I>>| matches!(s, Some(Solution::Unique(c)) if !c.value.subst.is_empty(chalk_integration::interner::ChalkIr) && c.value.subst.is_identity_subst(chalk_integration::interner::ChalkIr));
                                     let ambig = |s: &Option<Solution<I>>| s.as_ref().map_or(false, |s| s.is_ambig());
-                                    let sig = if is_slg && requeued && ((trivial(&a) && ambig(fj)) || (trivial(fj) && ambig(&a))) { Some("slg:trivial-answer-green-cut-order") } else { None };
+                                    let sig = if is_slg && requeued && ((trivial(&a) && ambig(fj)) || (trivial(fj) && ambig(&a))) {
+                                        Some("slg:trivial-answer-green-cut-order")
+                                    } else if is_slg && a.is_none() && fj.is_some() && slg_stale_table(&mut slg_s) {
+                                        // F11: the tables the crashed solve left behind are read by the retry in another order
+                                        Some("slg:stale-delayed-answer-table")
+                                    } else if is_slg && requeued {
+                                        let warm_sub = slg_subsumed_answers(&mut slg_s);
+                                        slg_order_signature(&disp(&a), warm_sub, &disp(fj), fresh_slg_subsumed(&l, &pj.goal))
+                                    } else {
+                                        None
+                                    };
                                     let _ = only_lost_answers;
                                     out.violation(sig, format!("{}: after a callback panic at call {}, solving `{}` on the same solver gives `{}`; a fresh solver gives `{}`", solver_name(&choice), n, w.goals[gj].0, disp(&a), disp(fj)), d(&disp(&a)));
                                     break;
